@@ -2,5 +2,6 @@ import QP.Base
 import QP.Props.C08
 import QP.Props.C13
 import QP.Props.C14
+import QP.Props.C17
 import QP.Props.C19
 import QP.Props.C20
